@@ -312,6 +312,21 @@ func sortedFuncs(m map[*types.Func]*Contract) []*types.Func {
 	return fs
 }
 
+// blockObl (contract option `noblock`): an operation that may wait for another
+// goroutine (channel send or receive, select without default) is made with no
+// levelled lock held - the goroutine waited for may itself be waiting for that lock.
+func (vc *VC) blockObl(fr *Frame, st *State, reach string, pos token.Pos, what string) {
+	if !vc.locksOn || !vc.lockObls || fr.pure || vc.rootContract == nil || !vc.rootContract.NoBlock {
+		return
+	}
+	root := fr.oblFn()
+	base := fmt.Sprintf("lock:%s:blocking", root)
+	ord := vc.callOrd[base]
+	vc.callOrd[base]++
+	o := vc.addObl("lock", root, fmt.Sprintf("%s#%d", base, ord), reach, vc.noneHeldFrom(st, 0), pos)
+	o.Clause = what + " with no lock held (the other side may be waiting for the lock)"
+}
+
 // takesLocks: does f (or a static callee inside the module, a few levels down) call a sync lock operation?
 func (eng *Engine) takesLocks(f *ssa.Function, depth int, seen map[*ssa.Function]bool) bool {
 	if seen[f] || depth > 6 {
